@@ -587,15 +587,24 @@ def export_svg(drawing, return_path=False, only_layers=None, digits=None, **kwar
     if util.is_instance_named(drawing, "Scene"):
         pairs = []
         geom_meta = {}
-        for name, geom in drawing.geometry.items():
+        # walk the nodes rather than the geometry so that every
+        # instance is written, placed by its transform in the scene
+        for node in drawing.graph.nodes_geometry:
+            matrix, name = drawing.graph[node]
+            geom = drawing.geometry[name]
             if not util.is_instance_named(geom, "Path2D"):
                 continue
+            if name in geom_meta:
+                # a further instance of a drawing is stored under its node name
+                name = util.unique_name(str(node), geom_meta)
             geom_meta[name] = geom.metadata
+            # the planar part of the transform that places this instance
+            planar = np.asanyarray(matrix, dtype=np.float64)[[0, 1, 3]][:, [0, 1, 3]]
             # a pair of (metadata, path string)
             pairs.extend(
                 _entities_to_str(
                     entities=geom.entities,
-                    vertices=geom.vertices,
+                    vertices=transform_points(geom.vertices, planar),
                     name=name,
                     digits=digits,
                     only_layers=only_layers,
